@@ -6,6 +6,8 @@ import Iota.Gen.Bech32
 import Iota.Gen.Ed
 import Iota.Gen.Merkle
 import Iota.Gen.Bip32Path
+import Iota.Gen.Migration
+import Iota.Model.Hash.Blake2b
 import Iota.Driver.C15
 
 /-!
@@ -100,7 +102,35 @@ def parseUintImpl (s : List (BitVec 8)) (base bits : BitVec 64) : BitVec 64 × O
   let v := s.foldl (fun acc c => acc * 10 + (c.toNat - 48)) 0
   if v < 2 ^ bits.toNat then (BitVec.ofNat 64 v, none) else (BitVec.ofNat 64 (2 ^ bits.toNat - 1), some "ErrRange")
 
+/-- `blake2b.Sum256` for the generated migration code: the driver's BLAKE2b-256 on the code's bytes -/
+def blakeImpl (x : List (BitVec 8)) : List (BitVec 8) := bvOfBytes (Hash.blake2b256 (bytesOfBv x))
+def migErrKind (e : String) : String :=
+  if e == "consts.ErrInvalidTrytesLength" then "length"
+  else if e == "consts.ErrInvalidChecksum" then "checksum"
+  else if (e.splitOn "prefix").length > 1 then "prefix"
+  else if (e.splitOn "suffix").length > 1 then "suffix"
+  else if e == "b1t6.ErrInvalidTrits" then "enc"
+  else e
+
 def ops : List (String × Handler) := [
+  -- pkg/migration: the generated Encode / Decode (with the iota.go b1t6 copy and guard they call)
+  ("gen.mig.enc", fun
+    | [h] => match bytesOfHex h with
+      | some a =>
+        let a32 := (a ++ List.replicate 32 0).take 32   -- the harness copies into a [32]byte
+        match Gen.Migration.migration.Encode blakeImpl (bvOfBytes a32) with
+        | none => "panic"
+        | some r => hexOfBytes (bytesOfBv r)
+      | none => badOp
+    | _ => badOp),
+  ("gen.mig.dec", fun
+    | [h] => match bytesOfHex h with
+      | some t => match Gen.Migration.migration.Decode blakeImpl (bvOfBytes t) with
+        | none => "panic"
+        | some (a, none) => s!"ok {hexOfBytes (bytesOfBv a)}"
+        | some (_, some e) => s!"err {migErrKind e}"
+      | none => badOp
+    | _ => badOp),
   -- pkg/bip32path: the generated ParsePath / Path.String with the two library functions above
   ("gen.path.parse", fun
     | [h] => match bytesOfHex h with
